@@ -9,6 +9,9 @@ def le (w n : Nat) : Bytes := leEncode w n
 /-- a DONE(MORE) package with the given count -/
 def doneBytes (count : Nat) : Bytes := [0xFD] ++ le 2 1 ++ le 2 0 ++ le 4 count
 
+/-- a ROWFMT with one INT4 column named `c`: a package whose last read (the empty locale) has length zero -/
+def rowFmtBytes : Bytes := [0xEE, 11, 0] ++ [1, 0] ++ [1, 0x63, 0] ++ [0, 0, 0, 0] ++ [0x38, 0]
+
 /-- the stream described by the packet list: `d<n>` body of n DONE packages, `h` header-only -/
 def buildStream : List String → Nat → (acc : Bytes) → Option Bytes
   | [], _, acc => some acc
@@ -17,6 +20,8 @@ def buildStream : List String → Nat → (acc : Bytes) → Option Bytes
     let st : Nat := if last then 1 else 0
     if p == "h" then
       buildStream rest n (acc ++ hdrBytes { msgType := 11, status := st, length := 8 })
+    else if p == "f" then
+      buildStream rest n (acc ++ hdrBytes { msgType := 4, status := st, length := rowFmtBytes.length + 8 } ++ rowFmtBytes)
     else
       match (p.drop 1).toString.toNat? with
       | none => none
@@ -33,6 +38,7 @@ def countsOf : Nat → Bytes → List String
     match bs with
     | 0xFD :: _ :: _ :: _ :: _ :: c0 :: c1 :: c2 :: c3 :: rest =>
       toString (leDecode [c0, c1, c2, c3]) :: countsOf fuel rest
+    | 0xEE :: 11 :: 0 :: rest => "R" :: countsOf fuel (rest.drop 11)
     | _ => []
 
 def showEvents : List Ev → List String → String
